@@ -25,7 +25,13 @@ def mixes():
     sums_dst = [reg("big", 9, 2 * 1048576 + 333, mt=900)]     # same size, unrelated content: a huge checksum list and a huge literal
     mixed = tiny[:40] + [reg("m1", 20, 300000), reg("m2", 21, 700)]
     mixed_dst = [reg("m1", 22, 300000, mt=900)]
-    return {"tiny": (tiny, []), "literal": (lit, []), "sums": (sums_src, sums_dst), "mixed": (mixed, mixed_dst)}
+    # many files that each exist on the receiving side as an earlier version (one local change): for every one of them the
+    # generator reads the old copy to compute checksums while the receiver reads old copies of EARLIER files to apply
+    # block references -- the two halves of the receiving side work on different files at the same time
+    delta_src = [reg("v%02d" % i, 300 + i, 120000 + 20011 * (i % 7)) for i in range(16)]
+    delta_dst = [dict(reg("v%02d" % i, 400 + i, 120000 + 20011 * (i % 7), mt=900), of=300 + i, ofsz=120000 + 20011 * (i % 7), ed="rep:%d:%d" % (5000 + 777 * i, 64))
+                 for i in range(16)]
+    return {"tiny": (tiny, []), "literal": (lit, []), "sums": (sums_src, sums_dst), "mixed": (mixed, mixed_dst), "delta": (delta_src, delta_dst)}
 
 
 WIRE_CFG = "SPECIFICATION WSpec\nCONSTANTS\n NF = %d\n NSums = 1\n NToks = 1\n CapUp = %d\n CapDown = %d\n SplitGenRcv = TRUE\nCHECK_DEADLOCK FALSE\n"
@@ -141,14 +147,19 @@ def check(w):
         if ln.get("baseline"):
             o = byid[ln["id"]]
             if o["result"] != "ok":
-                raise Broken("baseline run failed: %s" % str(o.get("err"))[:500])
+                # the plain run (unbounded transport, no chunking) is a transfer like any other: it must succeed.  It is judged
+                # below as a capacity run (result ok required); the runs of its group are then judged on termination and result only
+                base_digest[tuple(ln["group"])] = None
+                continue
             base_digest[tuple(ln["group"])] = digest(o)
+    if all(d is None for d in base_digest.values()):
+        raise Broken("every baseline run failed: %s" % str(byid[lines[0]["id"]].get("err"))[:500])
     traces = []
     for ln in lines:
         o = byid[ln["id"]]
         err = str(o.get("err") or "")
         traces.append({"id": ln["id"], "kind": "caperr" if ln.get("fault") else "cap", "hung": err.startswith("HUNG") or o["result"] == "hung", "result": o["result"], "digest": digest(o),
-                       "basedigest": base_digest[tuple(ln["group"])], "race": False, "solook": True, "results": [], "equal": [],
+                       "basedigest": base_digest[tuple(ln["group"])] or ("no-baseline" if ln.get("baseline") else digest(o)), "race": False, "solook": True, "results": [], "equal": [],
                        "_err": err[:2500], "_scn": {k: ln.get(k) for k in ("arr", "capup", "capdown", "chunk", "jitter", "flip")}, "_mix": ln["echo"]["mix"]})
     # ---- 3. concurrent sessions against one daemon under the race detector
     race_bin = w.build(race=True)
@@ -161,6 +172,9 @@ def check(w):
                     if quick and rnd.random() < 0.6:
                         continue
                     conc.append({"n": n, "kind": kind, "same": same, "procs": procs, "wire": not same})
+    # destinations that hold earlier versions of the larger files: delta transfers with block references, many at once
+    for n, kind, procs in ((2, "pull", 16), (8, "mixed", 16), (2, "push", 1)) if quick else ((2, "pull", 16), (2, "push", 16), (8, "mixed", 16), (8, "mixed", 2), (2, "pull", 1), (2, "push", 1), (32, "mixed", 16)):
+        conc.append({"n": n, "kind": kind, "same": False, "procs": procs, "wire": False, "prior": True})
     if not any(c.get("wire") for c in conc):
         conc.append({"n": 8, "kind": "mixed", "same": False, "procs": 16, "wire": True})
     if not conc:
@@ -184,7 +198,7 @@ def check(w):
                                   "src": p_rsync.slim_nodes(o["src"]), "dst": p_rsync.slim_nodes([n for n in o["src"] if n["p"] == "."]), "final": p_rsync.slim_nodes(cs["final"]), "extra": [],
                                   "result": "ok", "opts": OPTS_RLT, "rules": [], "judge": ["type", "content", "target"]})
             traces.append({"id": o["id"], "kind": "conc", "hung": False, "result": "", "digest": "", "basedigest": "", "race": False, "solook": o["solook"], "results": o["results"], "equal": o["equal"],
-                           "_err": o.get("diff", ""), "_scn": {k: o[k] for k in ("n", "kind", "same", "procs")}, "_mix": "conc"})
+                           "_err": o.get("diff", ""), "_scn": {k: o.get(k) for k in ("n", "kind", "same", "procs", "prior")}, "_mix": "conc"})
         else:
             scn = o.get("scn") or {}
             st = o.get("stderr") or ""
@@ -209,7 +223,7 @@ def check(w):
                 if t["kind"] == "caperr":
                     ok = not str(o.get("err") or "").startswith("HUNG") and o.get("result") in ("ok", "err")
                 else:
-                    ok = o.get("result") == "ok" and digest(o) == t["basedigest"]
+                    ok = o.get("result") == "ok" and (t["basedigest"] == "no-baseline" or digest(o) == t["basedigest"])
                 if not ok:
                     confirmed.append(t)
             if not confirmed:
@@ -304,7 +318,7 @@ def check(w):
         "capacity_pairs_model_checked": pairs, "capacity_runs": len(capt), "fault_runs": sum(1 for t in capt if t["kind"] == "caperr"), "concurrent_scenarios": len(conct), "concurrent_sessions": sum(len(t["results"]) for t in conct),
         "evaluations": len(traces), "distinct_nontrivial": sum(1 for t in capt if t["_scn"].get("capup") in (-2, 1, 17) or t["_scn"].get("capdown") in (-2, 1, 17)) + len(conct),
         "rule": "cap: a real client <-> real server transfer (library pull and push; local copy over io.Pipe) over a transport with capacity {rendezvous, 1 B, 17 B, 64 KiB, unbounded} per direction, read chunking {1, 3, 7, 4096 B} and random yields, "
-                "on trees of 150 tiny files / a 2 MiB literal / a 2 MiB file with a full checksum list / a mix; conc: 2..32 simultaneous pulls, pushes or both against one daemon, distinct and identical targets, GOMAXPROCS 1/2/16, race detector on; "
+                "on trees of 150 tiny files / a 2 MiB literal / a 2 MiB file with a full checksum list / a mix / 16 files that each exist as an earlier version (block references); conc: 2..32 simultaneous pulls, pushes or both against one daemon, distinct and identical targets, empty destinations and destinations holding earlier versions, GOMAXPROCS 1/2/16, race detector on; "
                 "non-trivial = a bounded capacity in at least one direction, or a concurrent scenario",
         "action_coverage": cov, "negative_controls": len(bad) + len(wbad), "mutant_deadlocks_in_model": True,
         "action_level_traces": len(wtr), "action_level_events": sum(len(t["events"]) for t in wtr), "action_level_rendezvous_traces": sum(1 for t in wtr if t["cu"] == 0 or t["cd"] == 0),
